@@ -140,7 +140,7 @@ CHECKS = {
         note=MSG_NOTE, ref="DESIGN.md §6 C17"),
     "C18": dict(
         technique="Coq proof (integer codec round trip for every width; X/C/nomval; R8 bit round trip; Fletcher closed form; get_bits; att2idx/att2name invert the walk's suffixing by induction over decimal printing) + exhaustive/boundary correspondence incl. the float engine and long inputs",
-        text="C18_int_rt / C18_int_refuse / C18_bytes_rt for E,I,L,U of every width; C18_x_rt/_refuse, C18_c_rt, C18_nomval; C18_r8_bits_rt (all 2^64 patterns but non-canonical NaNs); C18_fletcher_spec, C18_isvalid; C18_get_bits; C18_att2name / C18_att2idx (every base name without '_', every index path, any depth and magnitude); C18_r4_bits_rt / C18_r4_codec_rt (single precision: unpack then pack is the identity on every non-NaN 32-bit pattern; Flocq, four standard-library real-number axioms). Partial: val2sphp is modelled bit-exactly and tied by correspondence only; utc2itow/itow2utc (datetime arithmetic) are checked on the implementation only (dense sample of the week); protocol() is proved equal to the reader's dispatch in C07/C11.",
+        text="C18_int_rt / C18_int_refuse / C18_bytes_rt for E,I,L,U of every width; C18_x_rt/_refuse, C18_c_rt, C18_nomval; C18_r8_bits_rt (all 2^64 patterns but non-canonical NaNs); C18_fletcher_spec, C18_isvalid; C18_get_bits; C18_att2name / C18_att2idx (every base name without '_', every index path, any depth and magnitude); C18_r4_bits_rt / C18_r4_codec_rt (single precision: unpack then pack is the identity on every non-NaN 32-bit pattern; Flocq, four standard-library real-number axioms). C18_val2sphp (sp = truncated quotient, sp + hp/100 within 0.005 + 1e-12 of the quotient, |hp| <= 100; Flocq). Partial: utc2itow/itow2utc (datetime arithmetic) are checked on the implementation only (dense sample of the week); protocol() is proved equal to the reader's dispatch in C07/C11.",
         note=MSG_NOTE + AXIOM_NOTE.replace("scaled-field theorems", "R4 theorems"), ref="DESIGN.md §6 C18"),
     "C12": dict(
         technique="Coq proof (list induction over the framing trace for the three error policies) + correspondence incl. handler calls and raised exception",
